@@ -68,7 +68,16 @@ def check(ctx):
             env.setdefault(n.targets[0].id, n.value)
     nerr = kind_errors(ctx, 'R1', it, inside)
     # ---- R1 / R2 per digitize call
-    digs = uniq_events(it, {'digitize'}, inside)
+    digs, seen_ = [], set()
+    for e in it.events:
+        # one event per call site and lattice axis (a call inside a loop over the axes stands for three)
+        if e['tag'] == 'digitize' and inside(e):
+            k_ = (id(e['node']), e['x'].axis if e['x'] is not None else None)
+            if k_ not in seen_:
+                seen_.add(k_)
+                digs.append(e)
+    if len(digs) > 3 and len({id(e['node']) for e in digs}) < len(digs):
+        digs = [e for e in digs if e['x'] is not None and e['x'].axis is not None]
     if len(digs) != 3:
         ctx.ob('R1', fi, 'digitize calls', None, f'{len(digs)} digitize calls instead of one per axis')
     extents = {}
@@ -177,7 +186,43 @@ def check(ctx):
                     cand = defs[cand.id]
                 if isinstance(cand, ast.Tuple):
                     zc, shape_node = n, cand
-        if zc is None or len(shape_node.elts) != 3:
+        if (zc is None or len(shape_node.elts) != 3) and len(shape) == 3 and all(sv is not None and sv.sx for sv in shape):
+            # on values: the three extents as the allocation received them
+            from .common import parse_sx
+            def _lin_sx2(txt):
+                try:
+                    return linear(parse_sx(txt, full=True)) if txt else None
+                except SyntaxError:
+                    return None
+            ln_ = {kk: _lin_sx2(nv_.sx) for kk, nv_ in n_values.items() if nv_ is not None}
+            for k, sv in enumerate(shape):
+                le, mine = _lin_sx2(sv.sx), ln_.get(k)
+                what = f'extent of axis {k}'
+                nv_ = n_values.get(k)
+                b_ = sv.bin
+                if b_ is not None and b_[0] == '-' and has_const(b_[2]) and b_[1] is not None and nv_ is not None and b_[1].mono is not None and nv_.mono is not None \
+                        and b_[1].mono.text() == nv_.mono.text() and b_[1].axis is not None and not b_[1].mono_unknown:
+                    # n_k - c with n_k the number of edges of an axis (same normal form), identified by the axis it was computed for
+                    if b_[1].axis != k:
+                        ctx.ob('R1', fi, what, False, f'array extent of axis {k} is taken from axis {b_[1].axis}')
+                    elif cval(b_[2]) == 1:
+                        ctx.ob('R2', fi, what, True, f'extent of axis {k} = number of edges = n - 1')
+                    else:
+                        ctx.ob('R2', fi, what, False, f'extent of axis {k} is n - {cval(b_[2])}, its number of edges is n - 1: indices can reach the extent, or '
+                                                      f'voxels stay empty and the voxel size changes')
+                    continue
+                if le is not None and mine is not None and le[0] == mine[0] and le[1] == mine[1] - 1:
+                    ctx.ob('R2', fi, what, True, f'extent of axis {k} = number of edges = n - 1')
+                elif le is not None and mine is not None and le[0] == mine[0]:
+                    ctx.ob('R2', fi, what, False, f'extent `{sv.sx}` of axis {k} differs from its number of edges - 1: indices can reach the extent, or '
+                                                  f'voxels stay empty and the voxel size changes')
+                else:
+                    oth = [kk for kk, l_ in ln_.items() if kk != k and l_ is not None and le is not None and l_[0] == le[0]]
+                    if oth:
+                        ctx.ob('R1', fi, what, False, f'array extent of axis {k} is taken from axis {oth[0]}')
+                    else:
+                        ctx.ob('R2', fi, what, None, f'extent of axis {k} not comparable with its number of edges')
+        elif zc is None or len(shape_node.elts) != 3:
             ctx.ob('R2', fi, 'array extent', None, 'shape of the count array is not a literal 3-tuple')
         else:
             for k, se in enumerate(shape_node.elts):
